@@ -91,6 +91,7 @@ class World(object):
         self.op_budget = None
         self.op_seq0 = 0
         self.foreign = False
+        self.row_consts = []
         self.op_index = -1
         self.op_counts = {}
         self.calls = []            # peer call records of the current op
@@ -508,6 +509,7 @@ class World(object):
         ob_ = (self.scn.get("op_budgets") or {}).get(str(i))
         self.op_budget = int(ob_) if ob_ is not None else None
         if kind == "integrate":
+            self.row_consts.append((len(sysm), dict(sysm.constants)))      # rows recorded from here on are steps of this right-hand side
             cbs = [SimCallback(self, name, op) for name in op.get("callbacks", [])]
             self.cur_callbacks = cbs
             for m in self.monitors:
@@ -552,6 +554,7 @@ class World(object):
                 exc = e
             self.apply_knobs()
         elif kind == "reset":
+            self.row_consts = []
             sysm.reset()
             self.rhs_completed_at_reset = self.rhs_completed
             self.jacreq_at_reset = self.jacreq_returned
@@ -595,6 +598,14 @@ class World(object):
     # helpers for oracles
     def consts_at(self):
         return dict(self.system.constants)
+
+    def consts_for_row(self, row):
+        """constants in force when the step that produced recorded row `row` was taken"""
+        out = None
+        for start, c in self.row_consts:
+            if start <= row:
+                out = c
+        return dict(out) if out is not None else dict(self.system.constants)
 
     def f_math(self, t, y):
         return self.problem.f(t, y, **self.system.constants)
